@@ -2,6 +2,7 @@ package type1
 
 import (
 	"crypto/sha256"
+	"fmt"
 
 	"github.com/cloudflare/circl/group"
 	"github.com/cloudflare/circl/oprf"
@@ -33,14 +34,19 @@ func (s BasicPrivateTokenRequestState) ForTestsOnlyVerifier() *oprf.FinalizeData
 }
 
 func (s BasicPrivateTokenRequestState) FinalizeToken(tokenResponseEnc []byte) (tokens.Token, error) {
+	elementLength := int(group.P384.Params().CompressedElementLength)
+	if len(tokenResponseEnc) < elementLength {
+		return tokens.Token{}, fmt.Errorf("invalid token response encoding")
+	}
+
 	evaluatedElement := group.P384.NewElement()
-	err := evaluatedElement.UnmarshalBinary(tokenResponseEnc[:group.P384.Params().CompressedElementLength])
+	err := evaluatedElement.UnmarshalBinary(tokenResponseEnc[:elementLength])
 	if err != nil {
 		return tokens.Token{}, err
 	}
 
 	proof := new(dleq.Proof)
-	err = proof.UnmarshalBinary(group.P384, tokenResponseEnc[group.P384.Params().CompressedElementLength:])
+	err = proof.UnmarshalBinary(group.P384, tokenResponseEnc[elementLength:])
 	if err != nil {
 		return tokens.Token{}, err
 	}
